@@ -344,6 +344,9 @@ pub fn run(ctx: &Ctx) -> i32 {
         "C05" => msg_family(ctx, true, "fam_msg_s2",
             "(c) for every part and kind of every generated program: <ep>_messages() strictly ascending and equal, as a set, to the top-level keys obtained by serialising one value of every variant. Non-trivial = list with >=2 names or a digit-bearing name.",
             &[A_NATIVE, A_DOMAIN]),
+        "C10" => msg_family(ctx, true, "fam_msg_s2",
+            "for every exec / query method of the contract and of each interface (handle typed by the concrete contract and by `dyn Interface<..>`): `cases` tuples (argument values, address, funds set/unset); Remote::executor()[.with_funds]..build() must equal WasmMsg::Execute{addr, funds, body} and the body, fed to the target's generated execute entry point, must run that same method with equal arguments (C02 call-log oracle); the query helper must issue exactly one WasmQuery::Smart to the handle's address whose body the query entry point routes to the same method, and return the decoded handler response; InstantiateBuilder with random label/admin/funds/salt options is compared field by field and its body fed to the instantiate entry point. Non-trivial = method with arguments and non-empty funds, an interface-typed (`dyn`) handle, or >=2 builder options.",
+            &[A_ECHO, A_SERDE, A_NATIVE, A_DOMAIN, "Remote::update_admin / clear_admin are covered by the C20 runtime check"]),
         "C16" => msg_family(ctx, true, "fam_msg_s2",
             "for every generated program and every part: QueryResponses::response_schemas() is Ok, its key set equals the wire names of the part's queries (plus at most one unsendable placeholder), each entry equals schema_for!(declared response type) computed from svrt's own types; the contract-level table equals the union of the parts; schema_for!(Contract{Exec,Query,Sudo}Msg) is an anyOf whose members resolve to the parts' schemas. Non-trivial = a part with >=2 distinct response types or a part-spanning union.",
             &[A_NATIVE, A_DOMAIN, "response types: three plain structs, generic parameter, associated type, explicit resp= behind a result alias"]),
